@@ -592,6 +592,15 @@ impl Runner {
                             }
                             ret
                         }
+                        None if or.kept_cursor && op.is_mutator() && !op.path().is_empty() => {
+                            // iterators created before the operation, started after it
+                            let after = model.resolve(op.path()).ok();
+                            let (ret, note) = real::exec_op_with_unstarted_iters(&tx, op, owned, after);
+                            if let Some(n) = note {
+                                out.push(Violation::new("read:iterator_created_before_write", format!("op {} `{}`: {}", i, ops[i].to_json(), n)));
+                            }
+                            ret
+                        }
                         None => real::exec_op(&tx, op, owned),
                     };
                     if let Ret::Panic(p) = &got {
